@@ -255,6 +255,11 @@ OBJECTS: Dict[str, Tuple[Sp, str]] = {
     "DiscSub(fields)": (FA, INH_FIELDS_SRC),
     "ann(nt0)": (ann(NZ, max=5), ""),
     "list0": (ann(lst(INT), max_items=0), ""),
+    # mappings whose keys are constrained / converted
+    "map_pat(int)": (mp(INT, k=ann(STR, pattern="^a")), ""),
+    "map_lit(int)": (mp(INT, k=lit("a", "b")), ""),
+    "map_enum(str_len)": (mp(ann(STR, max_len=1), k=enum("Ek", "a", "b")), ""),
+    "map_nt(opt(int))": (mp(opt(INT), k=newtype("Kn", STR, pattern="^a")), ""),
     "A": (A, ""),
     "S2": (S2, ""),
     "S3": (S3, ""),
